@@ -335,6 +335,10 @@ trustfall = { path = '/repo/trustfall' }
             .current_dir(&dir)
             .env("CARGO_TARGET_DIR", target_dir())
             .env("CARGO_NET_OFFLINE", "true")
+            // no debug info: the oracle only needs to know whether the crate builds
+            .env("CARGO_PROFILE_DEV_DEBUG", "0")
+            .env("CARGO_PROFILE_TEST_DEBUG", "0")
+            .env("CARGO_INCREMENTAL", "0")
             .env_remove("RUSTFLAGS")
             .arg("test")
             .arg("--no-run")
